@@ -685,6 +685,15 @@ func (f Function) lambdaPrint(ps *ast.PrintState, out *strings.Builder) string {
 	needBraces := len(f.Body.Statements) != 1 ||
 		f.Body.Statements[0].Value().Type() == token.LBRACE ||
 		f.Body.Statements[0].Value().Type() == token.LAMBDA
+	if !needBraces {
+		// x=>a=1, x=>a||b, x=>return a don't read back as x=>{...}: what binds looser than => needs the braces.
+		switch st := f.Body.Statements[0].(type) {
+		case *ast.ReturnStatement:
+			needBraces = true
+		case *ast.InfixExpression:
+			needBraces = ast.Precedences[st.Type()] <= ast.LAMBDA
+		}
+	}
 	if needBraces {
 		out.WriteString("{")
 	}
